@@ -30,7 +30,7 @@ RULE = ('configurations = subsets (size<=k, distinct targets) of the binding poo
 ASSUMPTIONS = ['literally representable = value of the C02 grammar (finite floats, no sets, no arbitrary objects) plus '
                'references / macros / constants', 'a section whose bindings are all non-literal is printed as "# None." '
                'and is not expected to reappear after the round trip']
-WITNESSES = ['same_named_methods_of_same_named_classes', 'roundtrip_equal_value_and_type', 'nonliteral_omitted', 'permutation_invariant', 'second_text_identical',
+WITNESSES = ['late_same_named_registration', 'same_named_methods_of_same_named_classes', 'roundtrip_equal_value_and_type', 'nonliteral_omitted', 'permutation_invariant', 'second_text_identical',
              'wrapped_value_roundtrip', 'markdown_verbatim', 'sections_sorted', 'imports_kept', 'case_colliding_names',
              'module_disambiguation', 'method_target', 'macro_target', 'dynamic_roundtrip', 'narrow_width']
 
@@ -470,7 +470,69 @@ def run_dyn(case, res):
   res.outcome('dyn')
 
 
+# ------------------------------------------------------------------------------------ registrations between two texts
+LATE_FIRST = ['config_str', 'operative_config_str', 'error_message', 'nothing']
+
+
+def run_late(case, res):
+  """A configurable is serialised while its short name is unique; then a same-named configurable of another module is
+  registered (a late import); the text produced afterwards must still parse back to the same bindings."""
+  _, first = case
+  desc = list(case)
+  harness.hard_reset()
+  res.case(tuple(case), True)
+
+  def enc(depth=None, width=None):
+    return (depth, width)
+  a = gin.external_configurable(enc, name='enc', module='c06late.alpha.models')
+  gin.bind_parameter('c06late.alpha.models.enc.depth', 3)
+  gin.bind_parameter('s/enc.width', [1, 2])
+  a()
+  try:
+    if first == 'config_str':
+      gin.config_str()
+    elif first == 'operative_config_str':
+      gin.operative_config_str()
+    elif first == 'error_message':
+      try:
+        gin.bind_parameter('enc.nope', 1)
+      except ValueError:
+        pass
+
+    def enc2(depth=None):
+      return depth
+    gin.external_configurable(enc2, name='enc', module='c06late.beta.models')
+    gin.bind_parameter('c06late.beta.models.enc.depth', 4)
+    want = {k: dict(v) for k, v in cfg._CONFIG.items()}
+    texts = [gin.config_str(), gin.operative_config_str()]
+  except Exception as e:  # pylint: disable=broad-except
+    res.violation('config_str_raises', '%r: %r' % (desc, e), desc)
+    return
+  for which, text in zip(('config_str', 'operative_config_str'), texts):
+    gin.clear_config()
+    try:
+      gin.parse_config(text)
+    except Exception as e:  # pylint: disable=broad-except
+      res.violation('config_str_unparseable', '%r: %s after a same-named configurable was registered does not parse '
+                    '(%r):\n%s' % (desc, which, e, text), desc)
+      return
+    got = {k: dict(v) for k, v in cfg._CONFIG.items()}
+    if which == 'operative_config_str':    # (what the operative text lists is C07's subject: here it has to parse back)
+      if got.get(('', 'c06late.alpha.models.enc'), {}).get('depth') != 3:
+        res.violation('roundtrip_value', '%r: %s restores %r\n%s' % (desc, which, got, text), desc)
+        return
+      continue
+    exp = want
+    if got != exp:
+      res.violation('roundtrip_value', '%r: %s restores %r, expected %r\n%s' % (desc, which, got, exp, text), desc)
+      return
+  res.w('late_same_named_registration')
+  res.outcome('late')
+
+
 def gen(tier):
+  for first in LATE_FIRST:
+    yield ['late', first]
   k = 2 if tier == 'quick' else 3
   n = len(POOL)
   for size in range(1, k + 1):
@@ -507,6 +569,8 @@ def run_shard(i, tier):
     try:
       if c[0] == 'cfg':
         run_config(c[1], tier, res)
+      elif c[0] == 'late':
+        run_late(c, res)
       else:
         run_dyn(c, res)
     except Exception:  # pylint: disable=broad-except
@@ -523,6 +587,8 @@ def replay(desc):
   res = core.Result()
   if desc[0] == 'dyn':
     run_dyn(desc, res)
+  elif desc[0] == 'late':
+    run_late(desc, res)
   else:
     run_config(desc[1], 'thorough', res)
   harness.hard_reset()
